@@ -64,6 +64,7 @@ def to_py(e):
     if k == 'dict': return t.Dict[str, to_py(e[1])]
     if k == 'opt': return t.Optional[to_py(e[1])]
     if k == 'tup': return t.Tuple[to_py(e[1]), to_py(e[2])]
+    if k == 'tuplit': return (to_py(e[1]), to_py(e[2]))       # tuple-of-types shorthand
     if k == 'union': return t.Union[to_py(e[1]), to_py(e[2])]
     raise ValueError(k)
 
@@ -77,7 +78,7 @@ def to_ty(e):
     if k == 'opt':
         inner = to_ty(e[1])
         return Ty('union', [inner, Ty('none')]) if inner.k != 'none' else inner
-    if k == 'tup': return Ty('tup', [to_ty(e[1]), to_ty(e[2])])
+    if k in ('tup', 'tuplit'): return Ty('tup', [to_ty(e[1]), to_ty(e[2])])
     if k == 'union':
         a, b = to_ty(e[1]), to_ty(e[2])
         return a if (a.k == b.k and not a.a) else Ty('union', [a, b])
@@ -86,6 +87,8 @@ def to_ty(e):
 
 def same_type(a, b):
     """Structural equality of annotations; Union members as a set (typing's alias cache does not preserve their order)."""
+    if isinstance(a, tuple) or isinstance(b, tuple):
+        return isinstance(a, tuple) and isinstance(b, tuple) and len(a) == len(b) and all(same_type(x, y) for x, y in zip(a, b))
     oa, ob = t.get_origin(a) or a, t.get_origin(b) or b
     if oa is not ob:
         return False
@@ -108,7 +111,7 @@ def same_type(a, b):
 CONCRETE = (('int',), ('str',), ('float',), ('bool',), ('list', ('int',)), ('opt', ('str',)))
 
 
-def gen_expr(rng, tvs, depth=2):
+def gen_expr(rng, tvs, depth=2, top=True):
     c = rng.random()
     if tvs and c < 0.45:
         return ('tv', rng.choice(tvs))
@@ -120,8 +123,9 @@ def gen_expr(rng, tvs, depth=2):
         return rng.choice((('union', ('str',), ('int',)), ('union', ('int',), ('str',)), ('union', ('str',), ('list', ('int',))),
                            ('union', ('float',), ('str',))))
     if k == 'tup':
-        return (k, gen_expr(rng, tvs, depth - 1), gen_expr(rng, tvs, depth - 1))
-    inner = gen_expr(rng, tvs, depth - 1)
+        # the tuple-of-types shorthand is only legal as the whole annotation (typing refuses it as an argument)
+        return (rng.choice(('tup', 'tup', 'tuplit')) if top else 'tup', gen_expr(rng, tvs, depth - 1, False), gen_expr(rng, tvs, depth - 1, False))
+    inner = gen_expr(rng, tvs, depth - 1, False)
     if k == 'opt' and inner[0] in ('opt', 'union'):
         return ('list', inner)
     return (k, inner)
@@ -151,7 +155,7 @@ def gen_program(rng):
         else:
             parent_params = levels[-1]['params']
             if parent_params:
-                mode = rng.choice(('bind', 'forward', 'redeclare', 'partial', 'swap', 'plain'))
+                mode = rng.choice(('bind', 'forward', 'redeclare', 'partial', 'swap', 'plain', 'explicit-new-only'))
                 if mode == 'plain':
                     lv['base_args'], lv['params'], lv['explicit'] = None, list(parent_params), False
                 elif mode == 'bind':
@@ -161,6 +165,15 @@ def gen_program(rng):
                     newv = rng.sample(['T', 'U', 'V', 'W'], len(parent_params))
                     lv['base_args'] = [('tv', v) for v in newv]
                     lv['params'], lv['explicit'] = list(dict.fromkeys(newv)), False
+                elif mode == 'explicit-new-only':
+                    newv = rng.sample(['T', 'U', 'V', 'W'], len(parent_params))
+                    lv['base_args'] = [('tv', v) for v in newv]
+                    extra = [v for v in ('T', 'U', 'V', 'W') if v not in newv][:1]
+                    if extra:
+                        lv['generic_listed'] = extra                  # Generic[extra] only
+                        lv['params'], lv['explicit'] = extra + list(dict.fromkeys(newv)), True
+                    else:
+                        lv['params'], lv['explicit'] = list(dict.fromkeys(newv)), False
                 elif mode == 'redeclare':
                     newv = rng.sample(['T', 'U', 'V', 'W'], len(parent_params))
                     lv['base_args'] = [('tv', v) for v in newv]
@@ -308,7 +321,7 @@ def build_hierarchy(levels, with_custom=False):
         if lv['mixin']:
             bases.append(type(f"Mixin{next(_serial)}", (), {'helper': lambda self: 1}))
         if lv['explicit'] and lv['params']:
-            bases.append(t.Generic[tuple(TVS[p] for p in lv['params'])])
+            bases.append(t.Generic[tuple(TVS[p] for p in lv.get('generic_listed', lv['params']))])
         opts = dict(lv['opts'])
         if with_custom and li == 0:
             opts['custom'] = {Probe: probe_converter('L0')}
